@@ -146,12 +146,14 @@ def graph_inputs(tier, seed):
     for n in (1, 2, 3, 4):
         out += [("G1-exhaustive-n%d" % n, s) for s in all_closed(n)]
     if tier == "quick":
-        out += [("G1-sample-n5", s) for s in sample_closed(rng, 5, 3000)]
-        out += [("G1-sample-n6", s) for s in sample_closed(rng, 6, 800)]
-        for _ in range(1200):
+        from harness import common
+        k = common.boost()
+        out += [("G1-sample-n5", s) for s in sample_closed(rng, 5, 3000 * k)]
+        out += [("G1-sample-n6", s) for s in sample_closed(rng, 6, 800 * k)]
+        for _ in range(1200 * k):
             n = rng.randint(6, 14)
             out.append(("G2-random", rand_closed(rng, n)))
-        for _ in range(1200):
+        for _ in range(1200 * k):
             n = rng.randint(6, 24)
             out.append(("G2-template", rand_template(rng, n)))
     else:
